@@ -158,17 +158,18 @@ PROPS = {    "C01": {
     "C06": {
         "obligations": [
             {"name": "C06." + n, "pkg": "./internal/persistence/jsondb", "replay": "R1",
-             "quick": {"entry": "VerifHarness_C06_" + en, "flags": ["-unwind", "64", "-concrete-clock"], "sample_paths": 2, "bounds": b}}
+             "quick": {"entry": "VerifHarness_C06_" + en, "flags": ["-unwind", "64", "-concrete-clock"] + (["-solver", "cvc5", "-fallback", "z3", "-query-timeout-ms", "3000"] if n == "bigrecord" else []), "sample_paths": 2, "bounds": b}}
             for n, en, b in (("newest", "newest2", {"runs": 2, "names": "a, ab, 'a b', a.b, a_c, [a], a*, 20260102.03:04:05", "start_offsets": "same ms, +1ms, +800ms, +1s, +1min, +1day", "writes_per_run": "1..2"}),
                              ("newest-3runs", "newest3", {"runs": 3, "names": "a, ab, 'a b'", "start_offsets": "6 classes, third run before the first"}),
                              ("byid", "byid", {"runs": 2, "ids": "sharing their first 8 characters", "update": "with/without manual update", "second_run": "closed or still open"}),
                              ("isolation", "isolation", {"dags": 2, "operations_on_the_other_dag": "remove-all, rename, update, new run"}),
                              ("rename", "rename", {"runs": 2, "names": "every ordered pair of the 8 names"}),
                              ("retention", "retention", {"runs": 2, "retention_days": "0, 1, 2", "file_age": "0h, 23h, 25h, 47h, 49h (aged with os.Chtimes)", "names": "a, ab, 'a b'"}),
-                             ("today", "today", {"runs": "none | yesterday | today | both", "today_mode": "on"}))
+                             ("today", "today", {"runs": "none | yesterday | today | both", "today_mode": "on"}),
+                             ("bigrecord", "bigrecord", {"runs": 1, "writes": 2, "record_size": "one of the two records carries a string of symbolic length <= 1000 or 66000..100000 bytes", "closed": "with / without compaction"}))
         ],
         "assumptions": ["file-system model (DESIGN 3.2); instants are concrete representatives (offset classes), file names therefore concrete: filepath.Glob / regexp / sort are evaluated exactly on them",
-                        "status payloads are opaque JSON tokens (json.Marshal/Unmarshal registry model); the status cache is the real filecache executed from source",
+                        "status payloads are opaque JSON tokens (json.Marshal/Unmarshal registry model) with a symbolic wire size >= the symbolic strings they contain; bufio.Scanner stops with ErrTooLong on a payload line of 65536 bytes or more, bufio.Reader.ReadLine (used by the real reader) has no limit; the status cache is the real filecache executed from source",
                         "two runs started in the same millisecond whose request ids share their first 8 characters map to one file: outside the claim"],
         "outside_claim": COMMON_OUTSIDE + ["more than 3 runs per DAG, negative retention", "arbitrary symbolic DAG names (menu only)", "interleaved operation sequences longer than the ones listed"],
     },
